@@ -13,6 +13,14 @@ def PtrsOK (L R : List Person) : Prop := (L.map (·.ptr)).Nodup ∧ (R.map (·.p
 /-- no two left individuals select the same right individual through their unique identifiers -/
 def UniqueTargetsOK (L R : List Person) : Prop := ((L.filterMap (uniqueTarget R)).map (·.id)).Nodup
 
+/-- no right individual is a unique-identifier candidate of two left individuals: whatever the
+    map iteration order, two left individuals never select the same right individual -/
+def CandidatesDisjoint (L R : List Person) : Prop :=
+  ∀ a ∈ L, ∀ a' ∈ L, ∀ b ∈ uniqueCands R a, b ∈ uniqueCands R a' → a.id = a'.id
+
+instance (L R : List Person) : Decidable (CandidatesDisjoint L R) := by
+  unfold CandidatesDisjoint; exact inferInstance
+
 instance (L R : List Person) : Decidable (PtrsOK L R) := by unfold PtrsOK; exact inferInstance
 instance (L R : List Person) : Decidable (UniqueTargetsOK L R) := by
   unfold UniqueTargetsOK; exact inferInstance
@@ -31,8 +39,8 @@ theorem inj_of_nodup_map {α β : Type} (f : α → β) {l : List α} (h : (l.ma
 
 /-! ### createUniqueJobs -/
 
-theorem uniqueJobs_sent_mono (R : List Person) (as : List Person) (s : Sent) :
-    (∀ x ∈ s.a, x ∈ (uniqueJobs R as s).2.a) ∧ (∀ x ∈ s.b, x ∈ (uniqueJobs R as s).2.b) := by
+theorem uniqueJobs_sent_mono (ch : Person → Option Person) (as : List Person) (s : Sent) :
+    (∀ x ∈ s.a, x ∈ (uniqueJobs ch as s).2.a) ∧ (∀ x ∈ s.b, x ∈ (uniqueJobs ch as s).2.b) := by
   induction as generalizing s with
   | nil => simp [uniqueJobs]
   | cons a as ih =>
@@ -43,12 +51,13 @@ theorem uniqueJobs_sent_mono (R : List Person) (as : List Person) (s : Sent) :
       have := ih ⟨a.ptr :: s.a, b.ptr :: s.b⟩
       exact ⟨fun x hx => this.1 x (by simp [hx]), fun x hx => this.2 x (by simp [hx])⟩
 
-theorem uniqueJobs_spec (R : List Person) (as : List Person) (s : Sent) :
-    ((uniqueJobs R as s).1.map (·.l)).Sublist (as.map (·.id)) ∧
-    (uniqueJobs R as s).1.map (·.r) = (as.filterMap (uniqueTarget R)).map (·.id) ∧
-    (∀ j ∈ (uniqueJobs R as s).1, j.certain = true ∧
-      (∃ a ∈ as, a.id = j.l ∧ a.ptr ∈ (uniqueJobs R as s).2.a) ∧
-      (∃ b ∈ R, b.id = j.r ∧ b.ptr ∈ (uniqueJobs R as s).2.b)) := by
+theorem uniqueJobs_spec (R : List Person) (ch : Person → Option Person) (hch : ChoiceOK R ch)
+    (as : List Person) (s : Sent) :
+    ((uniqueJobs ch as s).1.map (·.l)).Sublist (as.map (·.id)) ∧
+    (uniqueJobs ch as s).1.map (·.r) = (as.filterMap ch).map (·.id) ∧
+    (∀ j ∈ (uniqueJobs ch as s).1, j.certain = true ∧
+      (∃ a ∈ as, a.id = j.l ∧ a.ptr ∈ (uniqueJobs ch as s).2.a) ∧
+      (∃ b ∈ R, b.id = j.r ∧ b.ptr ∈ (uniqueJobs ch as s).2.b)) := by
   induction as generalizing s with
   | nil => simp [uniqueJobs]
   | cons a as ih =>
@@ -63,7 +72,7 @@ theorem uniqueJobs_spec (R : List Person) (as : List Person) (s : Sent) :
         exact ⟨hc, ⟨a', by simp [ha'], e1, e2⟩, hb⟩
     · rename_i b hb
       have := ih ⟨a.ptr :: s.a, b.ptr :: s.b⟩
-      have hm := uniqueJobs_sent_mono R as ⟨a.ptr :: s.a, b.ptr :: s.b⟩
+      have hm := uniqueJobs_sent_mono ch as ⟨a.ptr :: s.a, b.ptr :: s.b⟩
       refine ⟨?_, ?_, ?_⟩
       · simp only [List.map_cons]; exact List.Sublist.cons_cons _ this.1
       · simp [hb, this.2.1]
@@ -71,7 +80,7 @@ theorem uniqueJobs_spec (R : List Person) (as : List Person) (s : Sent) :
         simp only [List.mem_cons] at hj
         rcases hj with e | hj
         · subst e
-          refine ⟨rfl, ⟨a, by simp, rfl, hm.1 _ (by simp)⟩, ⟨b, (uniqueTarget_some hb).1, rfl, hm.2 _ (by simp)⟩⟩
+          refine ⟨rfl, ⟨a, by simp, rfl, hm.1 _ (by simp)⟩, ⟨b, (hch a b hb).1, rfl, hm.2 _ (by simp)⟩⟩
         · obtain ⟨hc, ⟨a', ha', e1, e2⟩, hb'⟩ := this.2.2 j hj
           exact ⟨hc, ⟨a', by simp [ha'], e1, e2⟩, hb'⟩
 
@@ -143,13 +152,13 @@ theorem pointerJobs_spec (R : List Person) (scoreT : Nat → Nat → Rat) (prefe
 
 /-! ### all jobs -/
 
-theorem jobs_eq (L R : List Person) (scoreT scoreF : Nat → Nat → Rat) (prefer : Rat)
-    (h : R.isEmpty = false) :
-    jobs L R scoreT scoreF prefer =
-      (uniqueJobs R L ⟨[], []⟩).1 ++
-      (pointerJobs R scoreT prefer L (uniqueJobs R L ⟨[], []⟩).2).1 ++
-      matrixJobs L R (pointerJobs R scoreT prefer L (uniqueJobs R L ⟨[], []⟩).2).2 scoreF := by
-  unfold jobs
+theorem jobsFrom_eq (ch : Person → Option Person) (s0 : Sent) (L R : List Person)
+    (scoreT scoreF : Nat → Nat → Rat) (prefer : Rat) (h : R.isEmpty = false) :
+    jobsFrom ch s0 L R scoreT scoreF prefer =
+      (uniqueJobs ch L s0).1 ++
+      (pointerJobs R scoreT prefer L (uniqueJobs ch L s0).2).1 ++
+      matrixJobs L R (pointerJobs R scoreT prefer L (uniqueJobs ch L s0).2).2 scoreF := by
+  unfold jobsFrom
   simp [h]
 
 theorem matrixJobs_uncertain (L R : List Person) (s : Sent) (scoreF : Nat → Nat → Rat) :
@@ -159,30 +168,33 @@ theorem matrixJobs_uncertain (L R : List Person) (s : Sent) (scoreF : Nat → Na
   obtain ⟨a, _, b, _, e⟩ := hj
   rw [← e]
 
-theorem jobsOK_of_guards' (L R : List Person) (scoreT scoreF : Nat → Nat → Rat) (prefer : Rat)
-    (hids : IdsOK L R) (hp : PtrsOK L R) (hu : UniqueTargetsOK L R) :
-    JobsOK L R (jobs L R scoreT scoreF prefer) := by
+/-- for every resolution `ch` of the unique-identifier choices that pairs no right individual
+    twice, and whatever sent sets the options value starts with -/
+theorem jobsOK_from (L R : List Person) (scoreT scoreF : Nat → Nat → Rat) (prefer : Rat)
+    (ch : Person → Option Person) (hch : ChoiceOK R ch) (s0 : Sent)
+    (hids : IdsOK L R) (hp : PtrsOK L R) (hu : ((L.filterMap ch).map (·.id)).Nodup) :
+    JobsOK L R (jobsFrom ch s0 L R scoreT scoreF prefer) := by
   have hLid : (L.map (·.id)).Nodup := by
     unfold IdsOK at hids; rw [List.nodup_append] at hids; exact hids.1
   have hRid : (R.map (·.id)).Nodup := by
     unfold IdsOK at hids; rw [List.nodup_append] at hids; exact hids.2.1
   refine ⟨?_, ?_⟩
   · intro j hj
-    obtain ⟨a, ha, b, hb, el, er, _⟩ := jobs_justified' L R scoreT scoreF prefer j hj
+    obtain ⟨a, ha, b, hb, el, er, _⟩ := jobsFrom_justified L R scoreT scoreF prefer ch hch s0 j hj
     exact ⟨by rw [el]; exact List.mem_map.mpr ⟨a, ha, rfl⟩, by rw [er]; exact List.mem_map.mpr ⟨b, hb, rfl⟩⟩
   · by_cases hR : R.isEmpty = true
-    · have : jobs L R scoreT scoreF prefer = [] := by unfold jobs; simp [hR]
+    · have : jobsFrom ch s0 L R scoreT scoreF prefer = [] := by unfold jobsFrom; simp [hR]
       rw [this]; simp
     · have hR' : R.isEmpty = false := by simpa using hR
-      rw [jobs_eq L R scoreT scoreF prefer hR']
-      have hU := uniqueJobs_spec R L ⟨[], []⟩
-      have hP := pointerJobs_spec R scoreT prefer L (uniqueJobs R L ⟨[], []⟩).2 hRid hp.1
-      have hM := matrixJobs_uncertain L R (pointerJobs R scoreT prefer L (uniqueJobs R L ⟨[], []⟩).2).2 scoreF
+      rw [jobsFrom_eq ch s0 L R scoreT scoreF prefer hR']
+      have hU := uniqueJobs_spec R ch hch L s0
+      have hP := pointerJobs_spec R scoreT prefer L (uniqueJobs ch L s0).2 hRid hp.1
+      have hM := matrixJobs_uncertain L R (pointerJobs R scoreT prefer L (uniqueJobs ch L s0).2).2 scoreF
       -- the certain jobs are exactly the unique-identifier jobs followed by the pointer jobs
-      have hf : ((uniqueJobs R L ⟨[], []⟩).1 ++
-          (pointerJobs R scoreT prefer L (uniqueJobs R L ⟨[], []⟩).2).1 ++
-          matrixJobs L R (pointerJobs R scoreT prefer L (uniqueJobs R L ⟨[], []⟩).2).2 scoreF).filter (·.certain) =
-          (uniqueJobs R L ⟨[], []⟩).1 ++ (pointerJobs R scoreT prefer L (uniqueJobs R L ⟨[], []⟩).2).1 := by
+      have hf : ((uniqueJobs ch L s0).1 ++
+          (pointerJobs R scoreT prefer L (uniqueJobs ch L s0).2).1 ++
+          matrixJobs L R (pointerJobs R scoreT prefer L (uniqueJobs ch L s0).2).2 scoreF).filter (·.certain) =
+          (uniqueJobs ch L s0).1 ++ (pointerJobs R scoreT prefer L (uniqueJobs ch L s0).2).1 := by
         rw [List.filter_append, List.filter_append]
         rw [List.filter_eq_self.mpr (fun j hj => (hU.2.2 j hj).1),
           List.filter_eq_self.mpr (fun j hj => (hP.2.2 j hj).1),
@@ -210,5 +222,46 @@ theorem jobsOK_of_guards' (L R : List Person) (scoreT scoreF : Nat → Nat → R
         have : b = b' := inj_of_nodup_map (·.id) hRid hb hb' (by rw [e1, e3, ej, ej', e])
         rw [this] at e2
         exact e5 e2
+
+theorem jobsOK_of_guards' (L R : List Person) (scoreT scoreF : Nat → Nat → Rat) (prefer : Rat)
+    (hids : IdsOK L R) (hp : PtrsOK L R) (hu : UniqueTargetsOK L R) :
+    JobsOK L R (jobs L R scoreT scoreF prefer) :=
+  jobsOK_from L R scoreT scoreF prefer _ (uniqueTarget_admissible R).choiceOK _ hids hp hu
+
+/-- with disjoint candidate sets every admissible resolution pairs no right individual twice -/
+theorem choice_injective (L R : List Person) (ch : Person → Option Person) (hadm : Admissible R ch)
+    (hids : IdsOK L R) (hd : CandidatesDisjoint L R) : ((L.filterMap ch).map (·.id)).Nodup := by
+  have hLid : (L.map (·.id)).Nodup := by
+    unfold IdsOK at hids; rw [List.nodup_append] at hids; exact hids.1
+  have hRid : (R.map (·.id)).Nodup := by
+    unfold IdsOK at hids; rw [List.nodup_append] at hids; exact hids.2.1
+  have hcand : ∀ a b, ch a = some b → b ∈ uniqueCands R a := by
+    intro a b hab; have := hadm a; rw [hab] at this; exact this
+  -- generalise over a suffix of L
+  suffices h : ∀ as : List Person, (∀ a ∈ as, a ∈ L) → (as.map (·.id)).Nodup →
+      ((as.filterMap ch).map (·.id)).Nodup from h L (fun a ha => ha) hLid
+  intro as
+  induction as with
+  | nil => intro _ _; simp
+  | cons a as ih =>
+    intro hsub hnd
+    simp only [List.map_cons, List.nodup_cons] at hnd
+    have hrest := ih (fun x hx => hsub x (by simp [hx])) hnd.2
+    cases hca : ch a with
+    | none => simpa [List.filterMap_cons, hca] using hrest
+    | some b =>
+      simp only [List.filterMap_cons, hca, List.map_cons, List.nodup_cons]
+      refine ⟨?_, hrest⟩
+      intro hm
+      obtain ⟨b', hb', e⟩ := List.mem_map.mp hm
+      obtain ⟨a', ha', hca'⟩ := List.mem_filterMap.mp hb'
+      have hbR := (cand_spec (hcand a b hca)).1
+      have hb'R := (cand_spec (hcand a' b' hca')).1
+      have : b' = b := inj_of_nodup_map (·.id) hRid hb'R hbR e
+      rw [this] at hca'
+      have hid := hd a (hsub a (by simp)) a' (hsub a' (by simp [ha'])) b (hcand a b hca) (hcand a' b hca')
+      apply hnd.1
+      rw [hid]
+      exact List.mem_map.mpr ⟨a', ha', rfl⟩
 
 end Gedcom.Match
